@@ -34,8 +34,9 @@ def mk(fn):
         N = int(p["N"])
         if N < 2 or N % 2 or N > 256 or p["z"] == 0 or p["f"] == 0 or min(p["wvl"], p["d1"], p["d2"]) <= 0:
             return None
+        as_np = bool((inp or {}).get("numpy_scalars"))
         for k in ("wvl", "d1", "d2", "z", "f"):
-            p[k] = float(p[k])
+            p[k] = numpy.float64(p[k]) if as_np else float(p[k])
         U1, U2 = field(N, 1), field(N, 2)
         keep1, keep2 = U1.copy(), U2.copy()
         o1, do = call(fn, U1, p)
@@ -57,6 +58,8 @@ def fam(tier, seed):
         for z in (3.0, -3.0, 150., -0.4, 1e-9, -1e-9):
             for d2 in (1e-3, 1.5e-3, 0.5e-3):
                 yield {"N": N, "wvl": 6e-7, "d1": 1e-3, "d2": d2, "z": z, "f": z}
+                if N == 8:
+                    yield {"N": N, "wvl": 6e-7, "d1": 1e-3, "d2": d2, "z": z, "f": z, "numpy_scalars": True}
 
 
 CLAUSES = {"power." + fn: (mk(fn), fam) for fn in ("angularSpectrum", "oneStepFresnel", "twoStepFresnel", "lensAgainst")}
